@@ -91,7 +91,7 @@ OpNames == {"view", "split", "shuffle", "boot", "boots", "bootf", "wl", "ova", "
 Applicable(op, ty, nt) ==
   CASE op = "split"  -> ty.r = "V" \/ ty.k = "A"                 \* view impl / Dataset<F,E,I> impl
     [] op = "ova"    -> ty.d = 1                                 \* AsSingleTargets
-    [] op = "single" -> ty.r = "O" /\ ty.k = "A" /\ ty.d = 2 /\ ty.l = "U" /\ nt = 1
+    [] op = "single" -> ty.r = "O" /\ ty.k = "A" /\ ty.d = 2 /\ ty.l = "U"      \* Dataset<X, Y> (any number of columns)
     [] OTHER         -> op \in OpNames
 
 ResTy(op, ty) ==
@@ -205,7 +205,24 @@ OpTargetIter(s, j, pol)  == Apply(s, AllR(s), AllF(s), <<j>>, Step("col", "", j)
 OpFeatureIter(s, j, pol) == Apply(s, AllR(s), <<j>>, AllT(s), NoStep, ResTy("fiter", s.ty), pol)
 OpMap(s, name, pol)      == Apply(s, AllR(s), AllF(s), AllT(s), Step("map", name, 0), ResTy("map", s.ty), pol)
 OpToOwned(s, pol)        == Apply(s, AllR(s), AllF(s), AllT(s), NoStep, ResTy("toowned", s.ty), pol)
-OpSingle(s, pol)         == Apply(s, AllR(s), AllF(s), AllT(s), NoStep, ResTy("single", s.ty), pol)
+\* into_single_target: "Only works for targets with shape of form [X, 1], panics otherwise".  (With no sample at all
+\* there is no target to lose: the reshape succeeds; the one-dimensional result is then described by column 1.)
+OpSingle(s, pol) ==
+  IF NT(s) = 1 THEN Apply(s, AllR(s), AllF(s), AllT(s), NoStep, ResTy("single", s.ty), pol)
+  ELSE Apply(s, AllR(s), AllF(s), <<1>>, Step("col", "", 1), ResTy("single", s.ty), pol)
+
+\* Refusals.  MustRefuse: the operation has no admissible result on this dataset, so it has to be refused (panic):
+\*   - into_single_target of targets with more or less than one column (documented panic); returning would leave every
+\*     sample with a part of its targets only -- not a documented selection;
+\*   - bootstrap / bootstrap_samples of a >= 1 samples from an empty dataset: there is no existing sample to draw.
+\* MayRefuse: a refusal is admissible (the above, the same conversion of an empty dataset, chunks of size 0).
+MustRefuse(op, s, a) ==
+  \/ op = "single" /\ NT(s) # 1 /\ N(s) > 0
+  \/ op \in {"boot", "boots"} /\ N(s) = 0 /\ a >= 1
+MayRefuse(op, s, a) ==
+  \/ MustRefuse(op, s, a)
+  \/ op = "single" /\ NT(s) # 1
+  \/ op = "chunk" /\ a = 0
 
 \* sample_iter: the pairs (record row, target row) in order
 SamplePairs(s, L) == [p \in 1..N(s) |-> << [j \in 1..NF(s) |-> RTag(s.rr[p], s.fc[j])], Val(s, L, p) >>]
@@ -267,7 +284,7 @@ TargetIter  == Can("titer") /\ \E j \in 1..NT(st) : Do("titer", OpTargetIter(st,
 FeatureIter == Can("fiter") /\ \E j \in 1..NF(st) : Do("fiter", OpFeatureIter(st, j, CodePol("fiter", st)))
 MapT    == Can("map") /\ \E nm \in {"inc", "half", "rot"} : Do("map", OpMap(st, nm, CodePol("map", st)))
 ToOwned == Can("toowned") /\ Do("toowned", OpToOwned(st, CodePol("toowned", st)))
-Single  == Can("single") /\ Do("single", OpSingle(st, CodePol("single", st)))
+Single  == Can("single") /\ NT(st) = 1 /\ Do("single", OpSingle(st, CodePol("single", st)))
 
 Next == View \/ Split \/ Shuffle \/ BootS \/ BootF \/ Boot \/ WithLabels \/ Ova \/ Chunk
         \/ TargetIter \/ FeatureIter \/ MapT \/ ToOwned \/ Single
